@@ -14,6 +14,7 @@ pub mod c13;
 pub mod c14;
 pub mod c15;
 pub mod c16;
+pub mod c17;
 pub mod c18;
 pub mod c19;
 pub mod c20;
@@ -39,6 +40,7 @@ pub fn registry() -> Vec<PropEntry> {
 		PropEntry { id: "C14", level: "exploration", check: c14::check, replay: c14::replay },
 		PropEntry { id: "C15", level: "exploration", check: c15::check, replay: c15::replay },
 		PropEntry { id: "C16", level: "exploration", check: c16::check, replay: c16::replay },
+		PropEntry { id: "C17", level: "exploration", check: c17::check, replay: c17::replay },
 		PropEntry { id: "C18", level: "exploration", check: c18::check, replay: c18::replay },
 		PropEntry { id: "C19", level: "exploration", check: c19::check, replay: c19::replay },
 		PropEntry { id: "C20", level: "exploration", check: c20::check, replay: c20::replay },
